@@ -1,4 +1,5 @@
 import Bgpfu.Model.Session
+import Bgpfu.Lemmas.SessionLive
 /-!
 # C05 — each RPC caller receives exactly the reply to its own request
 
@@ -33,5 +34,93 @@ future, is lost; requests 2 and 3 never complete. -/
 theorem drop_in_reqlock_window_cex :
     ((St.rounds 4 (St.run { lockAcrossSend := true } d13Schedule)).futs.map (·.pc)) = [.dropped, .reading, .waitRx]
     ∧ (St.run { lockAcrossSend := true } d13Schedule).lost = [⟨some 2, 22, true⟩] := by decide
+
+/-! ## Safety, in every reachable state of the current code
+
+`Inv` (Lemmas/Session.lean) is an inductive invariant: it holds initially and is preserved by every
+action, so it holds after any action list (`run_inv`). The theorems below are its consequences. -/
+
+/-- **no message-id is ever reused**: the ids written to the transport are strictly increasing (and
+bounded by the id counter), whatever sends failed in the builder, in the transport, or were blocked. -/
+theorem ids_fresh (acts : List Act) :
+    (St.run {} acts).sent.Pairwise (· < ·) ∧ ∀ x ∈ (St.run {} acts).sent, x ≤ (St.run {} acts).nextId :=
+  ⟨(run_inv acts).1.sentInc, (run_inv acts).1.sentLe⟩
+
+/-- **own reply only**: a future that resolved `ok t` carries message-id `i` such that the server
+delivered a message with id `i`, payload `t`, whose phase 2 succeeds. -/
+theorem own_reply_only (acts : List Act) (f : Fut) (t : Nat) (hf : f ∈ (St.run {} acts).futs)
+    (hpc : f.pc = .done (.ok t)) :
+    ∃ m ∈ (St.run {} acts).delivered, m.id = some f.id ∧ m.tag = t ∧ m.p2 = true :=
+  (run_inv acts).1.resOk f.fid f t ((run_inv acts).find hf) hpc
+
+/-- **no reply is delivered twice**: two distinct futures have distinct message-ids, so (with
+`own_reply_only`) no delivered message can be the source of both results. -/
+theorem no_double_delivery (acts : List Act) (f g : Fut) (hf : f ∈ (St.run {} acts).futs)
+    (hg : g ∈ (St.run {} acts).futs) (hne : f ≠ g) :
+    f.id ≠ g.id ∧ f.fid ≠ g.fid ∧ ∀ m : Msg, ¬ (m.id = some f.id ∧ m.id = some g.id) := by
+  have hinv := run_inv acts
+  have h1 : f.id ≠ g.id := fun he => hne (eq_of_map_nodup (·.id) hinv.idNodup hf hg he)
+  refine ⟨h1, fun he => hne (eq_of_map_nodup (·.fid) hinv.1.fidNodup hf hg he), ?_⟩
+  rintro m ⟨h2, h3⟩
+  rw [h2] at h3
+  exact h1 (Option.some.inj h3)
+
+/-- **unknown ids are never delivered**: every `ok` stems from a message that passed phase 1 with the
+id of the future that got it; if no future has id `i`, no result stems from a message with id `i`. -/
+theorem unknown_id_never_delivered (acts : List Act) (f : Fut) (t : Nat) (hf : f ∈ (St.run {} acts).futs)
+    (hpc : f.pc = .done (.ok t)) :
+    ∃ m ∈ (St.run {} acts).delivered, m.tag = t ∧ m.id = some f.id ∧ m.id ≠ none ∧
+      ∀ i, (∀ g ∈ (St.run {} acts).futs, g.id ≠ i) → m.id ≠ some i := by
+  obtain ⟨m, hm, h1, h2, _⟩ := own_reply_only acts f t hf hpc
+  refine ⟨m, hm, h2, h1, by simp [h1], ?_⟩
+  intro i hi he
+  rw [h1] at he
+  exact hi f hf (Option.some.inj he)
+
+/-- … and operationally: a future that takes a message off the transport which fails phase 1, or
+whose id has no pending request, fails; the message goes to `lost`, no slot changes. -/
+theorem unknown_id_goes_to_lost (acts : List Act) (f : Fid) (fu : Fut) (m : Msg) (rest : List Msg)
+    (hf : (St.run {} acts).fut f = some fu) (hr : Reads (St.run {} acts) f fu)
+    (hi : (St.run {} acts).inbox = m :: rest)
+    (hb : m.id = none ∨ ∃ mid, m.id = some mid ∧ (St.run {} acts).slot mid ≠ some .pending) :
+    let s' := (St.run {} acts).poll f
+    s'.fut f = some { fu with pc := .done .err } ∧ s'.lost = (St.run {} acts).lost ++ [m] ∧
+      s'.slots = (St.run {} acts).slots ∧ ∀ g, g ≠ f → s'.fut g = (St.run {} acts).fut g := by
+  intro s'
+  have e : s' = _ := poll_bad_msg (run_inv acts) hf hr hi hb
+  rw [e]
+  simp only [St.fut_eq, findFut_setPc] at hf ⊢
+  refine ⟨by simp [hf], trivial, trivial, ?_⟩
+  intro g hg
+  simp [hg]
+
+/-- **the receive lock is never leaked**: in every reachable state the lock is free only if nobody
+waits for it; its owner is a live future (handed the lock, or reading from the transport), never a
+finished or dropped one; exactly the futures queued or handed the lock are in `waitRx`. -/
+theorem rx_lock_never_leaked (acts : List Act) :
+    let s := St.run {} acts
+    (s.rxOwner = none → s.rxQueue = []) ∧
+    (∀ g, s.rxOwner = some g → ∃ fu ∈ s.live, fu.fid = g ∧ (fu.pc = .waitRx ∨ fu.pc = .reading)) ∧
+    (∀ g ∈ s.rxQueue, s.rxOwner ≠ some g ∧ ∃ fu ∈ s.live, fu.fid = g ∧ fu.pc = .waitRx) ∧
+    s.rxQueue.Nodup ∧
+    (∀ fu ∈ s.futs, fu.pc = .waitRx → s.rxOwner = some fu.fid ∨ fu.fid ∈ s.rxQueue) ∧
+    (∀ fu ∈ s.futs, fu.pc = .reading → s.rxOwner = some fu.fid) := by
+  intro s
+  have hinv : Inv s := run_inv acts
+  refine ⟨hinv.2.freeOk, ?_, ?_, hinv.1.queueNodup, ?_, ?_⟩
+  · intro g hg
+    obtain ⟨fu, hf, hpc⟩ := hinv.2.ownOk g hg (by simp)
+    refine ⟨fu, ?_, findFut_fid hf, hpc⟩
+    rw [St.live_eq, List.mem_filter]
+    exact ⟨findFut_mem hf, by rcases hpc with h | h <;> simp [Fut.isLive, h]⟩
+  · intro g hg
+    obtain ⟨_, h2, fu, hf, hpc⟩ := hinv.2.qOk g hg
+    refine ⟨h2, fu, ?_, findFut_fid hf, hpc⟩
+    rw [St.live_eq, List.mem_filter]
+    exact ⟨findFut_mem hf, by simp [Fut.isLive, hpc]⟩
+  · intro fu hm hpc
+    exact hinv.2.waitOk fu.fid fu (hinv.find hm) (by simp) hpc
+  · intro fu hm hpc
+    exact (hinv.2.readOk fu.fid fu (hinv.find hm) (by simp) hpc).1
 
 end Session
